@@ -355,3 +355,17 @@ _c12_base = contracts
 
 def contracts():
     return _c12_base() + [setup_params_contract(["C12/"])]
+
+
+# What an instance gets at construction is driven by the class's parameter table: that table (which
+# Parameter object a name shows, `_cls_parameters`) and its invalidation for every descendant
+# (`_clear_params_cache`) are verified for C13 and are part of this check as well.
+_c12_base2 = contracts
+
+
+def contracts():
+    from contracts import c13 as _c13
+    extra = [_c13.cls_parameters_contract(), _c13.clear_cache_contract()]
+    for c in extra:
+        c.prop = "C12"
+    return _c12_base2() + extra
